@@ -30,6 +30,9 @@ def main(argv=None):
         return 0
     pid = a.what.upper()
     tier = "thorough" if a.tier.startswith("t") else "quick"
+    os.environ["VERIF_TIER_RUNNING"] = tier
+    from vlib import par
+    par.main_watchdog()
     mod = importlib.import_module(f"checks.{pid.lower()}")
     ctx = Ctx(pid, tier, a.seed, level=getattr(mod, "LEVEL", "other"))
     try:
